@@ -184,7 +184,7 @@ def groups(ctx, w, pm):
     ok = got.get('program') == names[1] and got.get('is_drum') == names[2]
     ctx.ob('GROUP/key-fields', w, blk[0] if blk else gl, ok, 'on the %s the instrument gets program=%s and is_drum=%s of its group' % (label, names[1], names[2]) if ok else
            'on the %s the instrument does not receive both the program and the drum flag of its group (gets %s): the group is written with the placeholder\'s values' % (label, got),
-           construct='%s: program and is_drum from the group key' % label)
+           construct='%s: program and is_drum from the group key' % label, definite=head is not None)
 
 
 def fresh(ctx, w):
